@@ -15,6 +15,7 @@ import (
 	"sync"
 
 	"github.com/parquet-go/parquet-go"
+	"github.com/parquet-go/parquet-go/deprecated"
 	"github.com/parquet-go/parquet-go/format"
 
 	"verifharness/core"
@@ -34,6 +35,7 @@ type c05Kind struct {
 	float bool
 	size  int  // fixed length of FIXED_LEN_BYTE_ARRAY kinds, 0 = variable length / not bytes
 	short bool // indexer drops the entries of null pages (finding F6)
+	int96 bool // INT96: 12 PLAIN bytes (three little-endian 32-bit words), signed 96-bit order
 }
 
 func (k *c05Kind) isBytes() bool { return k.width == 0 && k.name != "bool" }
@@ -62,6 +64,7 @@ var c05Kinds = []*c05Kind{
 	{name: "dec32", drv: "i32", typ: parquet.Decimal(2, 9, parquet.Int32Type).Type(), width: 32},
 	{name: "dec64", drv: "i64", typ: parquet.Decimal(2, 18, parquet.Int64Type).Type(), width: 64},
 	{name: "bool", drv: "", typ: parquet.BooleanType},
+	{name: "int96", drv: "int96", typ: parquet.Int96Type, size: 12, int96: true},
 }
 
 func c05KindByName(n string) *c05Kind {
@@ -85,6 +88,12 @@ func (k *c05Kind) value(v c05Val) parquet.Value {
 		return parquet.Int32Value(int32(uint32(v.bits)))
 	case k.width == 64:
 		return parquet.Int64Value(int64(v.bits))
+	case k.int96:
+		var x deprecated.Int96
+		for i := range x {
+			x[i] = binary.LittleEndian.Uint32(v.b[4*i:])
+		}
+		return parquet.Int96Value(x)
 	case k.size > 0:
 		return parquet.FixedLenByteArrayValue(v.b)
 	default:
@@ -108,6 +117,8 @@ func (k *c05Kind) fromValue(v parquet.Value) c05Val {
 		return c05Val{bits: uint64(math.Float32bits(v.Float()))}
 	case parquet.Double:
 		return c05Val{bits: math.Float64bits(v.Double())}
+	case parquet.Int96:
+		return c05Val{b: bytes.Clone(v.Bytes())}
 	default:
 		return c05Val{b: bytes.Clone(v.ByteArray())}
 	}
@@ -972,7 +983,7 @@ func c05PureBig(ctx *core.Ctx) {
 }
 
 func c05PureOrder(ctx *core.Ctx, r *rand.Rand, b *c05Batch) {
-	names := []string{"i32", "i64", "u32", "u64", "f32", "f64", "bytes", "bool"}
+	names := []string{"i32", "i64", "u32", "u64", "f32", "f64", "bytes", "bool", "int96"}
 	k := c05KindByName(names[r.Intn(len(names))])
 	n := c05Len(r)
 	if k.isBytes() && n > 200 {
@@ -1038,6 +1049,14 @@ func c05OrderCase(ctx *core.Ctx, b *c05Batch, k *c05Kind, vs []c05Val, arr strin
 				d[i] = v.bits != 0
 			}
 			got = parquet.VerifOrderOfBool(d)
+		case "int96":
+			d := make([]deprecated.Int96, n)
+			for i, v := range vs {
+				for j := range d[i] {
+					d[i][j] = binary.LittleEndian.Uint32(v.b[4*j:])
+				}
+			}
+			got = deprecated.OrderOfInt96(d)
 		}
 	})
 	detail := map[string]any{"op": "order", "kind": k.name, "values": k.texts(vs), "arrangement": arr, "order": got}
